@@ -67,6 +67,18 @@ class Rewriter(ast.NodeTransformer):
         )
         return ast.copy_location(new, node)
 
+    def visit_Assign(self, node):
+        self.generic_visit(node)
+        # d[k] = v with a single subscript target goes through a hook, so that dictionaries can be keyed by
+        # symbolic values (memo caches)
+        if len(node.targets) == 1 and isinstance(node.targets[0], ast.Subscript) and not isinstance(node.targets[0].slice, ast.Slice):
+            tg = node.targets[0]
+            new = ast.Expr(ast.Call(
+                func=ast.Attribute(value=ast.Name(id=HOOK, ctx=ast.Load()), attr="setitem", ctx=ast.Load()),
+                args=[tg.value, tg.slice, node.value], keywords=[]))
+            return ast.copy_location(new, node)
+        return node
+
     def visit_Compare(self, node):
         self.generic_visit(node)
         names = {ast.In: "contains", ast.NotIn: "not_contains", ast.Is: "is_", ast.IsNot: "is_not"}
@@ -131,6 +143,22 @@ def instrument(modname):
             if iv is not None and iv is not v:
                 _real_to_inst[id(v)] = iv
     _relink()
+    return mod
+
+
+def fresh_instance(modname):
+    """a further, private copy of an instrumented module with its own module-level state (not cached, not relinked:
+    for self-contained modules only)"""
+    instrument(modname)
+    real = importlib.import_module(modname)
+    path = inspect.getsourcefile(real)
+    tree = Rewriter(HAVOC.get(modname, ())).visit(ast.parse(open(path).read(), filename=path))
+    ast.fix_missing_locations(tree)
+    mod = types.ModuleType(modname)
+    mod.__file__ = path
+    mod.__package__ = real.__package__
+    mod.__dict__[HOOK] = hooks
+    exec(compile(tree, path, "exec"), mod.__dict__)
     return mod
 
 
